@@ -286,7 +286,12 @@ func mergeCryptoDynMap(ab *cmdsPair, name, prefix string) {
 func mergeCryptoCommon(ab *cmdsPair, al, bl []*cmd) []*cmd {
 	key := func(c *cmd) [2]string {
 		tokens := strings.Split(c.parsed, " ")
-		return [2]string(tokens[4:6])
+		k := [2]string(tokens[4:6])
+		// "lifetime seconds" and "lifetime kilobytes" are different settings.
+		if k[1] == "security-association" && len(tokens) > 7 {
+			k[1] += " " + tokens[7]
+		}
+		return k
 	}
 	var add []*cmd
 	m := make(map[[2]string]*cmd)
